@@ -1,6 +1,6 @@
 """C09 — prune removes exactly finished work; pruned ids are gone for good."""
 import base64, json
-from .. import common, framework, fndiff, cmdrun, gen, oracles
+from .. import common, framework, fndiff, cmdrun, gen, oracles, explore2
 from ..histories import run_history, replay_trace
 
 WEIGHTS = {"new_task": 22, "new_epic": 6, "set": 30, "claim": 4, "claim_oldest": 4, "sequence": 10, "sequence_rm": 2, "plan": 4,
@@ -103,6 +103,9 @@ def fresh_id_probe(ctx):
 
 
 def run(ctx):
+    framework.check_facts(ctx, ctx.facts, ["lock_sites", "writer_calls", "with_lock"])
+    import os
+    os.environ["GOGC"] = "1"      # stress the Go runtime: collections (and finalizers) inside every lock section
     res = fndiff.run_stream(ctx.ev, ["fn-replay", str(ctx.seed + 900), "1500" if ctx.quick else "20000"])
     ctx.tie("T2-fn replay/prune/tombstones", cases=res["cases"], classes=res["classes"], disagreements=len(res["diffs"]))
     ctx.count(res["cases"])
@@ -112,6 +115,9 @@ def run(ctx):
     r = gen.Rng(ctx.seed * 1000003 + 9)
     for h in range(20 if ctx.quick else 300):
         run_history(ctx, r.fork(), 40, WEIGHTS, make_oracle(Tracker()))
+    # prune against a concurrent writer that reopens / adds work: the set removed must be the policy's set for the log prune decided on
+    for i in range(4 if ctx.quick else 100):
+        explore2.explore(ctx, "C09", r.fork(), kindsA=("prune",), kindsB=(("reopen",) if i % 4 != 3 else ("new", "set+state")), max_points=(6 if ctx.quick else 40), state_cmds=16)
     ctx.cov["rule"] = ("random event lists (tombstones in any position) model vs Go replay/selectPruneTargets; scripted-RNG probe that the next id "
                        "drawn equals a pruned id; seeded histories with prune/compact/re-use attempts; distinct = (command, outcome, mode, fields)")
 
